@@ -28,6 +28,6 @@ ids = lambda a: sorted(f.id for f in a.fits)
 session.add(db.Fit(id="f5", instance=G(a=1.0), name="n5", unique_tag=None, is_complete=True))
 session.commit()
 got = ids(agg.query(~(agg.search.unique_tag == "t0")))
-print("returned", got, "expected ['f1', 'f2', 'f3', 'f4', 'f5']")
-assert got == ["f1", "f2", "f3", "f4"], got
-print("reproduced: negated-attribute-null")
+print("returned", got, "expected ['f1', 'f2', 'f3', 'f4', 'f5']  (before 79488b4: f5, whose tag is NULL, was missing)")
+assert got == ["f1", "f2", "f3", "f4", "f5"], got
+print("checked: negated-attribute-null (fixed in 79488b4)")
